@@ -871,7 +871,7 @@ func runC20(c *core.Ctx) {
 	}
 	c.ExhaustiveDomain("type names: every ColumnType 0..255 (one-column row event) and every StatementType -1..16 (statement event) serialised once and compared with the tables in checks/c20.go")
 
-	n := c.N(30000, 1000000)
+	n := c.N(30000, 3000000)
 	for i := 0; i < n; i++ {
 		if !c.Mine(i) {
 			continue
